@@ -71,6 +71,11 @@ def _fill_vnadata(s, rng, vd="vd"):
             complex(75, -1.5) if ext == ".npd" else 75.0)))
     if rng.random() < 0.3:
         s.op("vnadata_set_dprecision $%s %d" % (vd, int(rng.choice([3, 9, 17]))))
+    if rng.random() < 0.5:
+        # a format the caller chose, half of the time without a parameter
+        # letter (it then follows the object's type)
+        fm = str(rng.choice(["ri", "ma", "dB", t + "ri", t + "ma"]))
+        s.op("vnadata_set_format $%s %s" % (vd, qs(fm)))
     return t, n, F, ext
 
 
@@ -81,12 +86,14 @@ def case_vnadata_save(rng, fsave=False):
     op = "vnadata_fsave" if fsave else "vnadata_save"
     L["base"] = s.op("%s $vd \"base%s\"" % (op, ext))
     L["hbase"] = s.op("hash_file \"base%s\"" % ext)
+    L["before"] = s.op("dump_vnadata $vd")
     L["arm"] = s.op("iofault " + pick_fault(rng, ["w", "w", "w"] if fsave
-                                            else ["w", "w", "w", "c", "o"],
+                                            else ["w", "w", "w", "c", "o", "o"],
                                             "base" + ext))
     L["fault"] = s.op("%s $vd \"base%s\"" % (op, ext))
     L["off"] = s.op("iofault off")
     L["after"].append(s.op("dump_vnadata $vd"))
+    L["dump_after"] = L["after"][-1]
     L["retry"] = s.op("%s $vd \"base%s\"" % (op, ext))
     L["hretry"] = s.op("hash_file \"base%s\"" % ext)
     s.op("v2=vnadata_alloc")
@@ -325,6 +332,20 @@ def judge(res, text, L, prop, part):
                         and len(cb) <= 1):
                     bad("failure-report",
                         "reported as %s" % str(fv)[:300])
+    # a save that could not even open its file was refused for its
+    # arguments (the path): the object answers every getter as before
+    if failed and fired and arm == "o" and "before" in L:
+        a, b = res.ev(L["before"]), res.ev(L["dump_after"])
+        if a is not None and b is not None and "out" in a and "out" in b:
+            cnt["io_open_refusals_with_dumps"] = cnt.get(
+                "io_open_refusals_with_dumps", 0) + 1
+            if a["out"] != b["out"]:
+                diff = {k: (a["out"].get(k), b["out"].get(k))
+                        for k in a["out"] if a["out"].get(k) != b["out"].get(k)}
+                bad("changed-by-refused-save",
+                    "the file could not be opened, the call failed, and the "
+                    "object answers its getters differently: %s"
+                    % str(diff)[:400])
     # usable afterwards
     for ln in L["after"]:
         ev = res.ev(ln)
